@@ -110,3 +110,26 @@ package fun
 //@   requires wg != nil && !held(wg.mu)
 //@   ensures wg.credit == old(wg.credit)
 //@   modifies wg.counter, wg.cond, wg.wW, wg.wS, wg.credit
+
+// ---------------------------------------------------------------------------
+// Worker-group error classification (C03)
+// ---------------------------------------------------------------------------
+
+// The sentence of the property, as predicates over errors.Is facts:
+// a failure is recorded (handed to the ErrorHandler exactly once) iff it is a
+// recovered panic, or it is none of skip / io.EOF / excluded and, if it is a
+// context error, context errors are included.
+//@ pred isPanic(err error) = errIs(err, ErrRecoveredPanic)
+//@ pred isSkip(err error) = errIs(err, ErrIteratorSkip)
+//@ pred isEOF(err error) = errIs(err, io_EOF)
+//@ pred isCtx(err error) = errIs(err, context_Canceled) || errIs(err, context_DeadlineExceeded)
+//@ pred isExcluded(o WorkerGroupConf, err error) = exists i: int :: 0 <= i && i < len(o.ExcludedErrors) && !(err == nil && o.ExcludedErrors[i] != nil) && errIs(err, o.ExcludedErrors[i])
+//@ pred reportable(o WorkerGroupConf, err error) = err != nil && (isPanic(err) || (!isSkip(err) && !isEOF(err) && !isExcluded(o, err) && (isCtx(err) ==> o.IncludeContextExpirationErrors)))
+//@ pred mayContinue(o WorkerGroupConf, err error) = err == nil || (isPanic(err) ? o.ContinueOnPanic : (isSkip(err) || (!isEOF(err) && !isCtx(err) && o.ContinueOnError)))
+
+//@ func (WorkerGroupConf).CanContinueOnError
+//@   props C03
+//@   requires o.ErrorHandler != nil
+//@   ensures recorded: reportable(o, err) ==> calls(o.ErrorHandler) == old(calls(o.ErrorHandler)) + 1
+//@   ensures notrecorded: !reportable(o, err) ==> calls(o.ErrorHandler) == old(calls(o.ErrorHandler))
+//@   ensures continues: result == mayContinue(o, err)
